@@ -380,7 +380,9 @@ func execMvcc(intents []string, st *Stats) (final, outs, oracle []string) {
 		outs = append(outs, out)
 	}
 	fail := func(tag, msg string) {
-		oracle = append(oracle, fmt.Sprintf("line %d: %s :: [%s] %s", len(final), final[len(final)-1], tag, msg))
+		o := fmt.Sprintf("line %d: %s :: [%s] %s", len(final), final[len(final)-1], tag, msg)
+		oracle = append(oracle, o)
+		oracleProgress(o)
 	}
 	for _, line := range intents {
 		w := strings.Fields(line)
